@@ -84,6 +84,8 @@ FIXED = [
     "map { h1 : b }", "map { a / b2 : 1 }", ". instance of map ( xs:string , map ( * ) )", ". instance of map ( xs:string , array ( * ) )",
     "function ( $m as map ( xs:string , array ( * ) ) ) { 1 }", ". instance of map ( xs:string , function ( * ) )",
     ". instance of map ( xs:string , attribute ( x ) )", ". instance of array ( map ( * ) )",
+    "( ) instance of function ( * ) ?", "( ) instance of function ( * ) +", "( abs # 1 , abs # 1 ) instance of function ( * ) *",
+    "( ) treat as function ( * ) ?", "( ) instance of map ( * ) ?", "( ) instance of array ( * ) +",
 ] + sorted(FIXED_TREES)
 
 
